@@ -16,7 +16,7 @@ DEFAULT = dict(
     max_depth=[1, 2, 2], ncallers=[1, 1, 2, 3], caller_len=[1, 2, 3], p_caller_await=0.7, p_caller_pause=0.3,
     event_timeout=300.0, short_timeouts=None, p_stall=0.08, shuffle_order=True, rotate_p=0.0,
     own_bus_only=False, long_p=0.0, caller_idle_p=0.0, explicit_parent_p=0.0, redispatch_caller_p=0.0,
-    results_p=0.0, p_await_any=0.0, p_stop_fault=0.0, p_late=0.0, p_raise_cancelled=0.0,
+    results_p=0.0, p_await_any=0.0, p_stop_fault=0.0, p_cancel_runloop=0.0, p_spawn=0.0, p_late=0.0, p_raise_cancelled=0.0,
     exc_kinds=['ValueError', 'KeyError', 'Boom', 'RuntimeError'], p_ret_container=0.0,
 )
 
@@ -89,7 +89,7 @@ def gen_bus(seed: int, knobs: dict, profile: str) -> dict:
         return r.choice(buses)
 
     OPS = ['p_pause', 'p_yield', 'p_dispatch', 'p_dawait', 'p_gap', 'p_await_any', 'p_redispatch', 'p_readbus', 'p_burn',
-           'p_raise', 'p_raise_cancelled', 'p_return_exc']
+           'p_raise', 'p_raise_cancelled', 'p_return_exc', 'p_spawn']
     weights = [max(0.0, K[k]) for k in OPS]
     total_w = sum(weights) or 1.0
 
@@ -152,6 +152,11 @@ def gen_bus(seed: int, knobs: dict, profile: str) -> dict:
                 if is_handler and not sync:
                     p.append(['raise_cancelled'])
                     break
+            elif k == 'p_spawn':
+                # fire-and-forget asyncio task started by the handler (it inherits the handler's context): dispatches
+                # one more event later, typically after the handler's own event has completed
+                if is_handler and not sync:
+                    p.append(['spawn_dispatch', r.choice([0.0, 0.01, 0.05, 0.2, 0.5]), target(own), r.choice(types)])
             elif k == 'p_return_exc':
                 if is_handler:
                     p.append(['return_exc', r.choice(['ValueError', 'Boom'])])
@@ -222,6 +227,10 @@ def gen_bus(seed: int, knobs: dict, profile: str) -> dict:
         k = r.randrange(5, 320)
         act = r.choice([['stop', victim, None], ['stop', victim, 0], ['stop', victim, 0.05], ['cancel_runloop', victim]])
         sc['faults']['at_step'] = [[k, act]]
+    if K['p_cancel_runloop'] and r.random() < K['p_cancel_runloop']:
+        # the bus's background task is cancelled from outside (a task sweep, a TaskGroup going down) while the
+        # program goes on using the bus
+        sc['faults'].setdefault('at_step', []).append([r.randrange(3, 120), ['cancel_runloop', r.choice(buses)]])
     if r.random() < K['p_stall']:
         sc['faults']['stalls'] = sorted([[round(r.choice([0.0, 0.01, 0.05, 0.1, 0.5, 1.0]) + r.random() * 0.1, 6), r.choice([0.001, 0.05, 0.11, 0.3])] for _ in range(r.choice([1, 2, 3]))])
     return sc
@@ -270,8 +279,9 @@ PROFILES = {
                           ncallers=[1, 2, 3], caller_len=[2, 3, 4], p_caller_await=0.4),
     'timeouts_clean': dict(nb=[1], own_bus_only=True, ncallers=[1], p_caller_await=1.0, short_timeouts=(0.5, [0.05, 0.1, 0.5, 1.0]), long_p=0.3,
                            p_pause=0.5, p_dispatch=0.0, p_dawait=0.0, max_depth=[1]),
+    'late_child': dict(nb=[1, 2, 3], p_spawn=0.3, p_dispatch=0.25, p_dawait=0.2, p_pause=0.25, ncallers=[1, 2], p_caller_await=0.6, fwd='some'),
     'idle_race': dict(nb=[1, 2], caller_idle_p=0.6, ncallers=[2, 3], p_caller_await=0.3, p_raise=0.05),
-    'idle_dead_loop': dict(nb=[1, 2], caller_idle_p=0.7, ncallers=[1, 2], caller_len=[2, 3, 4], p_caller_await=0.0, p_raise_cancelled=0.12, p_dawait=0.1, p_dispatch=0.2),
+    'idle_dead_loop': dict(nb=[1, 2], p_cancel_runloop=0.5, caller_idle_p=0.7, ncallers=[1, 2], caller_len=[2, 3, 4], p_caller_await=0.0, p_raise_cancelled=0.12, p_dawait=0.1, p_dispatch=0.2),
 }
 
 
